@@ -102,7 +102,22 @@ class Prop(common.PropertyCheck):
                     bool(np.allclose(np.ma.getdata(bd), np.asarray(back), rtol=0, atol=1e-12))
                 xs = np.sort(np.concatenate([x[:-1], np.linspace(x[0], x[-2], 300)]))
                 invs = np.asarray(inv.transform_non_affine(xs, mask_out_of_range=False))
-                return {'p': bits(p), 's': [bits(v) for v in s], 'x': [bits(v) for v in x],
+                # tick locators built on the transform (as the logicle scale does) compute ticks for several views: the transform keeps solving the
+                # equation of its own triple
+                shared = None
+                try:
+                    for subs in (None, np.arange(1.0, 10.0)):
+                        loc = FlowCal.plot._LogicleLocator(t, subs=subs)
+                        for vmin, vmax in ((float(x[0]), float(x[-2])), (-abs(float(x[-2])) / 100., float(x[-2])), (0.0, float(T))):
+                            loc.tick_values(vmin, vmax)
+                    x2 = t.transform_non_affine(s)
+                    if [float(t.T), float(t.M), float(t.W)] != [float(T), float(M), float(W)] or bits(float(t._p)) != bits(p):
+                        shared = 'after its tick locator computed ticks the transform reports T, M, W = %r, %r, %r and p = %r (was %r)' % (float(t.T), float(t.M), float(t.W), float(t._p), p)
+                    elif [bits(v) for v in x2] != [bits(v) for v in x]:
+                        shared = 'after its tick locator computed ticks the transform maps the same display values to other data values'
+                except Exception as e:
+                    shared = 'tick locator raised %s: %s' % (type(e).__name__, str(e)[:80])
+                return {'p': bits(p), 's': [bits(v) for v in s], 'x': [bits(v) for v in x], 'shared': shared,
                         'default_inverse_ok': default_ok,
                         'maxerr': float(np.max(np.abs(np.asarray(back) - s[:-1]))), 'inv_mono': bool(np.all(np.diff(invs) >= 0)),
                         'TMW': [float(t.T), float(t.M), float(t.W)]}
@@ -194,15 +209,15 @@ class Prop(common.PropertyCheck):
         if k == 'triple':
             T, M, W = case['T'], case['M'], case['W']
             p = unbits(impl['p'])
-            if not (p >= 1 - 1e-12) or abs(2 * p / (p + 1) * math.log10(p) - W) > 1e-9:
+            if not (p >= 1 - 1e-12) or common.far(2 * p / (p + 1) * math.log10(p), W, 1e-9):
                 return 'p=%r does not solve W = 2p log10(p)/(p+1) for W=%r' % (p, W)
             s = [unbits(b) for b in impl['s']]; x = [unbits(b) for b in impl['x']]
             scale = T * 10 ** (-(M - W)) * (1 + p * p)
             for si, xi in zip(s, x):
                 want = T * 10 ** (-(M - W)) * (10 ** (si - W) - p * p * 10 ** (-(si - W) / p) + p * p - 1)
-                if abs(want - xi) > 1e-9 * (abs(want) + scale):
+                if common.far(want, xi, 1e-9 * (abs(want) + scale)):
                     return 'transform(%r) = %r, biexponential equation gives %r (T=%r M=%r W=%r)' % (si, xi, want, T, M, W)
-            if abs(x[-1]) > 1e-12 * scale:
+            if common.far(x[-1], 0.0, 1e-12 * scale):
                 return 'display value W is mapped to %r, not 0' % x[-1]
             if any(b <= a for a, b in zip(x[:-2], x[1:-1])):
                 return 'transform is not strictly increasing on [0, M] (T=%r M=%r W=%r)' % (T, M, W)
@@ -210,6 +225,8 @@ class Prop(common.PropertyCheck):
                 return 'inverse round trip error %.3g exceeds 1e-4*M (T=%r M=%r W=%r)' % (impl['maxerr'], T, M, W)
             if not impl['inv_mono']:
                 return 'inverse is not non-decreasing'
+            if impl.get('shared'):
+                return 'T=%r M=%r W=%r: %s' % (case['T'], case['M'], case['W'], impl['shared'])
             if not impl.get('default_inverse_ok', True):
                 return 'the inverse called with its default arguments returns masked / non-finite / other values on the transform of [0, M] (T=%r M=%r W=%r)' % (case['T'], case['M'], case['W'])
             return None
@@ -234,7 +251,7 @@ class Prop(common.PropertyCheck):
             return 'data-derived parameters refused (%s); documented rules give T=%r M=%r W=%r' % (impl['err'], T, M, W)
         got = impl['TMW']
         for g, w, nm in zip(got, (T, M, W), 'TMW'):
-            if abs(g - w) > 1e-6 * max(1, abs(w)):      # single-precision samples give single-precision W
+            if common.far(g, w, 1e-6 * max(1, abs(w))):      # single-precision samples give single-precision W
                 return 'data-derived %s = %r, documented rule gives %r (mins %s, ranges %s, overrides %s)' % (nm, g, w, impl['mins'], impl['ranges'], kw)
         return None
 
@@ -251,9 +268,9 @@ class Prop(common.PropertyCheck):
         scale = T * 10 ** (-(M - W)) * (1 + p * p)
         for a, b in zip(model['x'], impl['x']):
             a, b = unbits(a), unbits(b)
-            if abs(a - b) > 1e-9 * (abs(a) + scale):
+            if common.far(a, b, 1e-9 * (abs(a) + scale)):
                 return 'Lean Float logicle %r vs implementation %r' % (a, b)
-        if abs(unbits(model['Wf']) - W) > 1e-9:
+        if common.far(unbits(model['Wf']), W, 1e-9):
             return 'Lean Wf(p) = %r vs W = %r' % (unbits(model['Wf']), W)
         return None
 
